@@ -10,6 +10,10 @@ from pathlib import Path
 from vf.core import Violation, innermost_lib_frame
 
 
+class _Abort(Exception):
+    """History ended early because a *known* finding was hit (state after it is not trusted)."""
+
+
 class Exec:
     PROP = "C??"
 
@@ -35,7 +39,7 @@ class Exec:
         self.log.append({"op": name, **args})
         try:
             return getattr(self, "op_" + name)(**args)
-        except Violation:
+        except (Violation, _Abort):
             raise
         except Exception as e:
             where = innermost_lib_frame(e)
@@ -65,9 +69,6 @@ class Exec:
     def finish(self):
         pass
 
-
-class _Abort(Exception):
-    """History ended early because a *known* finding was hit (state after it is not trusted)."""
 
 
 def minimize_history(ctx, exec_factory, violation, budget_s=40.0):
